@@ -15,7 +15,7 @@ func init() {
 	addIdxSafe("C09", "sites", 2, "pkg/version", "pkg/parser")
 	addIdxSafe("C11", "functions", 5, "cmd/php-parser") // no index expression there today: any that appears must be proved
 	addIdxSafe("C12", "functions", 300, "pkg/visitor/traverser", "pkg/visitor") // likewise
-	addIdxSafe("C14", "sites", 5, "pkg/visitor/nsresolver")
+	addIdxSafe("C14", "sites", 3, "pkg/visitor/nsresolver")
 	addIdxSafe("C15", "sites", 3, "pkg/visitor/printer")
 	addIdxSafe("C16", "sites", 140, "pkg/visitor/dumper", "pkg/token")
 	addIdxSafe("C17", "sites", 12, "pkg/visitor/formatter")
